@@ -26,8 +26,16 @@ def make(kind, d, rng):
         a, beta = rng.choice([1.0, -math.pi]), rng.choice([14.0, 5.0, 0.0])
         return KaiserWaveform(d, a, beta), ("kaiser", a, beta)
     if kind == "interp":
-        vals = [rng.choice([0.0, 1.0, 3.0, -1.0]) for _ in range(min(max(d, 2), rng.choice([2, 3, 4])))]
-        return InterpolatedWaveform(d, vals), ("interp", vals)
+        vals = [rng.choice([0.0, 1.0, 3.0, -1.0]) for _ in range(min(max(d, 2), rng.choice([2, 3, 4, 5])))]
+        # every constructor option at default and non-default values (times, interpolator, interpolator options)
+        kw = {}
+        if rng.random() < 0.3 and len(vals) >= 3 and d >= 9:
+            ts = [0.0] + sorted(rng.sample([0.125, 0.25, 0.375, 0.5, 0.625, 0.75, 0.875], len(vals) - 2)) + [1.0]
+            kw["times"] = ts
+        if rng.random() < 0.5:
+            kinds_ok = ["linear", "previous", "next", "nearest"] + (["quadratic"] if len(vals) >= 3 else []) + (["cubic"] if len(vals) >= 4 else [])
+            kw.update(interpolator="interp1d", kind=rng.choice(kinds_ok))
+        return InterpolatedWaveform(d, vals, **kw), ("interp", vals, sorted(kw.items(), key=str))
     if kind == "custom":
         s = [rng.choice([0.0, 0.5, -1.0, 2.0]) for _ in range(d)]
         return CustomWaveform(s), ("custom", s)
@@ -89,7 +97,8 @@ def check_waveform(kind, d, rng):
                 "ramp": lambda: float(w2._start) == float(w._start) and float(w2._stop) == float(w._stop),
                 "black": lambda: float(w2._area) == float(w._area),
                 "kaiser": lambda: float(w2._area) == float(w._area) and float(w2._beta) == float(w._beta),
-                "interp": lambda: np.array_equal(np.asarray(w2._values), np.asarray(w._values)) and np.array_equal(np.asarray(w2._times), np.asarray(w._times))}[kind]()
+                "interp": lambda: (np.array_equal(np.asarray(w2._values), np.asarray(w._values)) and np.array_equal(np.asarray(w2._times), np.asarray(w._times))
+                                   and repr(sorted(w2._kwargs.items(), key=str)) == repr(sorted(w._kwargs.items(), key=str)))}[kind]()
         if not same:
             out.append(f"{tag}: change_duration does not keep the defining parameters")
     # scaling
